@@ -5,6 +5,7 @@ import (
 	"errors"
 	"fmt"
 	"sync"
+	"sync/atomic"
 	"time"
 
 	bigbuff "github.com/joeycumines/go-bigbuff"
@@ -92,7 +93,9 @@ func c11Buffer(c *core.Ctx) {
 			}
 		}()
 	}
+	var shared [3]atomic.Pointer[bigbuff.Consumer]
 	for k := 0; k < consumers; k++ {
+		k := k
 		seed := c.Rng.Uint64()
 		wg.Add(1)
 		go func() {
@@ -102,6 +105,7 @@ func c11Buffer(c *core.Ctx) {
 			if err != nil {
 				return
 			}
+			shared[k].Store(&cons) // other goroutines ask for this consumer's Diff (a read-only call, safe from anywhere)
 			sum := 0
 			for i := 0; i < n; i++ {
 				gctx, gcancel := context.WithTimeout(ctx, time.Duration(50+r.IntN(500))*time.Microsecond)
@@ -142,7 +146,12 @@ func c11Buffer(c *core.Ctx) {
 			defer wg.Done()
 			r := newRand(seed)
 			for i := 0; i < n/2; i++ {
-				switch r.IntN(6) {
+				switch r.IntN(8) {
+				case 6, 7:
+					// Diff of somebody else's consumer, while its owner is in the middle of Get / Commit / Rollback
+					if cp := shared[r.IntN(len(shared))].Load(); cp != nil {
+						_, _ = b.Diff(*cp)
+					}
 				case 0:
 					_ = b.SetCleanerConfig(bigbuff.CleanerConfig{Cleaner: bigbuff.FixedBufferCleaner(50+r.IntN(50), 10, nil), Cooldown: time.Duration(r.IntN(100)) * time.Microsecond})
 				case 1:
